@@ -28,6 +28,9 @@ def install() -> None:
     global _installed
     if _installed:
         return
+    from .common import ensure_icontract
+
+    ensure_icontract()
     import icontract
 
     from frequenz.sdk.microgrid._power_distributing._distribution_algorithm import \
